@@ -254,3 +254,11 @@ Example ex_link_eval :
   prop_ok (CShare [(7, true); (7, true); (9, true)]%nat [Some 0; Some 1; Some 1]%nat) = false /\
   prop_ok (CConfig cfg_fixed None 0 2 (Some (104857600, 20971521))) = false.
 Proof. vm_compute. repeat split; reflexivity. Qed.
+
+(* two users started with contexts 0 and 1; context 0 (the FIRST starter's) ends: the checker keeps running *)
+Example ex_ctx_end :
+  ctx_obs_run life0 [CStart 0; CStart 1; CCtxEnd 0; CShutdown; CCtxEnd 1; CShutdown]%nat =
+  [(false, 1, true, true); (false, 2, true, true); (false, 2, true, true); (false, 1, true, true);
+   (false, 1, true, true); (false, 0, false, false)] /\
+  violations (CCtxLife [CStart 0; CCtxEnd 0]%nat [(false, 1, true, true); (false, 1, false, false)]) = [12; 13]%nat.
+Proof. vm_compute. split; reflexivity. Qed.
